@@ -55,6 +55,28 @@ def run(ctx):
         if stray:
             direct_bad.append((j, {"stray_operands": stray[:3]})); continue
         blocks.append((defs, expr)); meta.append((j, r))
+    # linked programs of several modules (import chains, diamonds): every call of the LINKED program names a function of the linked program
+    from props import c16
+    lg = c16.Gen(ctx.rng)
+    ljobs = []
+    for nm, edges, kk in [("chain4", [(3, 2), (2, 1), (1, 0)], 4), ("diamond", [(3, 1), (3, 2), (1, 0), (2, 0)], 4), ("two-roots-shared", [(1, 0), (2, 0)], 3),
+                          ("chain-plus-root", [(2, 1), (1, 0), (3, 0)], 4), ("transitive-and-direct", [(2, 1), (2, 0), (1, 0)], 3)] * (1 if ctx.tier == "quick" else 6):
+        funcs, owner, globs, k = lg.shaped(edges, kk)
+        mods, imports, single, names = lg.split(funcs, owner, globs, k)
+        sources = [m for m in range(k) if not any(m in imports[j] for j in range(k))]
+        ljobs.append({"modules": mods, "order": [names[m] for m in c16.topo(imports, k)], "adds": [[names[m] for m in sources], [names[m] for m in reversed(sources)]], "calls": [],
+                      "single": single, "opts": {"optimize": bool(len(ljobs) % 2)}})
+    lres = ctx.run_impl("c16_impl.py", ljobs, nworkers=8)
+    nlinked = 0
+    for lj, lr in zip(ljobs, lres):
+        for li, l in enumerate(lr.get("links", [])):
+            if not l.get("ok"):
+                direct_bad.append(({"src": json.dumps(lj["modules"])[:1500], "opts": lj["opts"]}, {"link_failed": l.get("error"), "adds": l.get("adds")})); continue
+            k2 = len(jobs) + nlinked
+            nlinked += 1
+            prog = ircoq.program({"functions": l["ir"]["functions"], "globals": l["ir"]["globals"]})
+            blocks.append(("Definition P_%d : program := %s.\n" % (k2, prog), "wf_case P_%d" % k2))
+            meta.append(({"src": "modules " + json.dumps(lj["modules"])[:3000] + " added " + json.dumps(l["adds"]), "opts": lj["opts"]}, {"ir": l["ir"], "linked": True}))
     files = vmcases.write_case_files(ctx, "C14", blocks, per=12)
     outs = ctx.eval_cases(files, timeout=900)
     codes = vmcases.collect_codes(ctx, files, outs, len(blocks), per=12)
@@ -67,7 +89,7 @@ def run(ctx):
     ctx.cov["programs"] = len(progs)
     ctx.cov["rule"] = ("the C01 generator's programs (loops with break/continue, calls, recursion, arrays, structs, globals) compiled at both optimisation settings by the real compiler; "
                        "the dumped IR of every module is checked by the Coq function wf_program_b (unique references, block-local def-before-use, branch targets, call arity) whose soundness "
-                       "on the VM model is the theorem; the unoptimised IR is additionally compared for equality with the lowering model; plus vector / matrix programs, the store/load grid of C02 and aggregate copies followed by element, member and swizzle accesses (well-formedness of the dumped IR only). Every (program, setting) pair is distinct and non-trivial.")
+                       "on the VM model is the theorem; the unoptimised IR is additionally compared for equality with the lowering model; plus vector / matrix programs, the store/load grid of C02 and aggregate copies followed by element, member and swizzle accesses (well-formedness of the dumped IR only); plus LINKED programs of several modules (import chains, diamonds, transitive and direct imports) checked the same way. Every (program, setting) pair is distinct and non-trivial.")
     ctx.cov["samples"] = [{"source": j["src"][:400], "optimize": j["opts"]["optimize"]} for j, _ in meta[:2]]
     ctx.extra["input_distribution"] = {"modules_checked": len(meta), "functions": nfun, "instructions": ninstr, "ill_formed": len(bad_spec), "not_compiled": len(direct_bad)}
     ctx.extra["disagreements_checked"] = len(codes)
